@@ -10,7 +10,8 @@ from .common import Driver
 THEOREM_MODULES = ["PygacModel.Theorems.C07"]
 RULE = ("passes whose line i carries quality bit (i mod 32) alone, then random / all-ones / three-bit-complement words; "
         "for each a twin with quality 0 and a twin differing only in the other 29 bits; products compared row by row "
-        "(mask, 7-column summary, calibrated channels, lon/lat, 5 angles). A case = (format, line); non-trivial = "
+        "(mask, 7-column summary, calibrated channels, lon/lat, 5 angles); passes at the top of each line-number field's range "
+        "(32762.., 65520.., 14980..). A case = (format, line); non-trivial = "
         "quality word != 0; distinct by (family, quality word)")
 
 BITS = {"klm": (31, 28, 27), "pod": (31, 27, 26)}
@@ -61,14 +62,14 @@ def quality_words(rng, n, fam, kind):
     raise ValueError(kind)
 
 
-def check_pass(ctx, fmt, n, kind, seed, interpolate, drv):
+def check_pass(ctx, fmt, n, kind, seed, interpolate, drv, n0=1):
     fam = filegen.FMT[fmt]["family"]
     rng = random.Random(repr((seed, fmt, n, kind)))
     tb = sum(1 << b for b in BITS[fam])
     q = quality_words(rng, n, fam, kind)
 
     def build(qq):
-        pb = filegen.PassBuilder(ctx, fmt, n, random.Random(repr((seed, fmt, n))))
+        pb = filegen.PassBuilder(ctx, fmt, n, random.Random(repr((seed, fmt, n))), n0=n0)
         pb.quality = qq.astype(np.uint32)
         if fam == "klm":
             pb.bitfield[:] = np.array([0, 1, 0, 0, 1][: 5] * (n // 5 + 1))[:n]
@@ -80,7 +81,7 @@ def check_pass(ctx, fmt, n, kind, seed, interpolate, drv):
     A = products(ctx, fmt, pa, interpolate)
     Z = products(ctx, fmt, pz, interpolate)
     C = products(ctx, fmt, pc, interpolate)
-    payload = {"fmt": fmt, "n": n, "kind": kind, "seed": seed, "interpolate": interpolate}
+    payload = {"fmt": fmt, "n": n, "kind": kind, "seed": seed, "interpolate": interpolate, "n0": n0}
     lines = pa.line_numbers
     want_mask = np.array([spec_mask(fam, int(x)) for x in q])
     # --- oracle on the implementation
@@ -136,6 +137,11 @@ def run(ctx):
                      ("klmLac", 64, "random", bool(k % 2)), ("podLac", 64, "random", bool(k % 2))]
     for k, (fmt, n, kind, interp) in enumerate(plan):
         check_pass(ctx, fmt, n, kind, ctx.seed * 1000 + k, interp, drv)
+    # the summary reports the scan-line number: passes at the top of each line-number field's range
+    # (KLM unsigned 16 bit, LAC up to 65534; POD signed 16 bit; GAC up to 14999)
+    for k, (fmt, n, n0) in enumerate([("klmLac", 12, 32762), ("klmLac", 12, 65520), ("podLac", 12, 32750),
+                                      ("klmGac", 12, 14980), ("podGac", 12, 14980)]):
+        check_pass(ctx, fmt, n, "walk", ctx.seed * 1000 + 500 + k, False, drv, n0=n0)
     if ctx.thorough:   # masks alone over many more words (cheap: no pipeline)
         rng = ctx.rng
         for fam in ("klm", "pod"):
@@ -165,7 +171,7 @@ def replay(ctx, path):
         print("replay file carries no input: %s" % body.get("broken_theorems_or_obligations"))
         return 1
     ctx.driver_ok = False
-    check_pass(ctx, inp["fmt"], inp["n"], inp["kind"], inp["seed"], inp["interpolate"], [])
+    check_pass(ctx, inp["fmt"], inp["n"], inp["kind"], inp["seed"], inp["interpolate"], [], n0=inp.get("n0", 1))
     if ctx.input_violations:
         print("REPRODUCED: " + ctx.input_violations[0]["what"])
         return 1
